@@ -1,4 +1,5 @@
 import Mkdb.Proofs.Unchanged
+import Mkdb.Proofs.SpecRefine
 /-!
 # C14 — a statement that returns an error changes nothing
 
@@ -101,4 +102,44 @@ example : Filed emptyCatalog ∧ ∃ s', insert [116] [] [] emptyCatalog = .err 
     subst h
     exact ⟨s', heq⟩
   · cases h
+end Mkdb.Store
+
+namespace Mkdb.Store
+open Mkdb.Tree Mkdb.Page Mkdb.Tuple
+
+/-- **C14.insert_refused_plain_model**: against the plain in-memory model (the judge's specification):
+an INSERT into an unknown table, or whose *first* row the plain model refuses (arity, type, range,
+size), is refused by the plain model and by the engine, the log is untouched and the store still
+abstracts to the same plain database. -/
+theorem C14_insert_refused_plain_model (db : Engine.DB) (pt sch : Levels) (tbls : List (Bytes × Levels))
+    (sdb : Spec.SDB) (h : AbsV db.store pt sch tbls sdb) (table : Bytes) (cols : List Bytes)
+    (r : List Val) (rest : List (List Val))
+    (hbad : (Spec.findTable sdb table = none ∧ table ≠ sysPages ∧ table ≠ sysSchema) ∨
+      ∃ st, Spec.findTable sdb table = some st ∧ Spec.rowOf st cols r = none) :
+    Spec.specInsert sdb table cols (r :: rest) = none ∧
+    ∃ e db', Engine.evalInsert db table cols (r :: rest) = .err (.store e) db' ∧
+      (e = .tableNotExist ∨ RowRefusal e) ∧ db'.wal = db.wal ∧ AbsV db'.store pt sch tbls sdb :=
+  evalInsert_refused_specV db pt sch tbls sdb h table cols r rest hbad
+
+/-- **C14.insert_kth_row_plain_model** (the known finding, stated against the plain model): when the
+k-th row (k >= 2) is the refused one, the plain model refuses the statement and so does the engine,
+nothing is logged - but the store abstracts to the plain database *with the good rows before it
+appended*, not to the database before the statement. -/
+theorem C14_insert_kth_row_plain_model (db : Engine.DB) (pt sch : Levels) (tbls : List (Bytes × Levels))
+    (sdb : Spec.SDB) (h : Abs db.store pt sch tbls sdb)
+    (table : Bytes) (t : Levels) (ht : (table, t) ∈ tbls)
+    (schema : List FieldDef) (hsch : schemaOf sch table = some schema)
+    (cols : List Bytes) (good : List (List Val)) (bad : List Val) (rest : List (List Val))
+    (goodRows : List (List Val)) (hvalid : ∀ r ∈ good, ∀ v ∈ r, ValidVal v)
+    (hgood : good.mapM (Spec.rowOf (absTable table schema t) cols) = some goodRows)
+    (hbad : Spec.rowOf (absTable table schema t) cols bad = none)
+    (hrun : InsRunOK schema (cols.map Engine.bytesToName) t db.store.hdr.lastKey db.store.hdr.nextLSN
+      db.store.hdr.nextFree good) :
+    Spec.specInsert sdb table cols (good ++ bad :: rest) = none ∧
+    ∃ e db' ptF t', Engine.evalInsert db table cols (good ++ bad :: rest) = .err (.store e) db' ∧
+      RowRefusal e ∧ db'.wal = db.wal ∧
+      Abs db'.store ptF sch (setTable tbls table t')
+        (sdb.map (updRows table (fun r => r ++ idRows db.store.hdr.lastKey goodRows))) :=
+  evalInsert_kth_refused_spec db pt sch tbls sdb h table t ht schema hsch cols good bad rest goodRows hvalid hgood hbad hrun
+
 end Mkdb.Store
